@@ -197,6 +197,28 @@ theorem history_within_budget (syms : SymbolTable) (blocks : List Block) (az : A
     simp only [AzState.calls]
     exact ih _ (within_call syms blocks az lim s c h)
 
+/-- **Cumulative accounting across snapshots.** The same, for histories in which the authorizer
+    is replaced, any number of times and at any point — also right after a call that hit a
+    limit — by what its own snapshot restores: the budget spent before stays spent. -/
+theorem history_with_restores_within_budget (syms : SymbolTable) (blocks : List Block) (az : AuthorizerData) (lim : Limits) :
+    ∀ (os : List AzOp) (s : AzState), Within lim s → Within lim (AzState.ops syms blocks az lim s os).1 := by
+  intro os
+  induction os with
+  | nil => intro s h; exact h
+  | cons o rest ih =>
+    intro s h
+    simp only [AzState.ops]
+    apply ih
+    cases o with
+    | call c => exact within_call syms blocks az lim s c h
+    | restore => exact h
+
+/-- a restored authorizer whose iteration budget was used up refuses to run again -/
+theorem restored_exhausted_refuses (syms : SymbolTable) (rules : List SRule) (lim : Limits) (s : AzState)
+    (hd : s.done = false) (hpos : 0 < s.iterations) (hex : lim.maxIterations ≤ s.iterations) :
+    s.restore.run syms rules lim = (s, .error .tooManyIterations) := by
+  simp [AzState.restore, AzState.run, hd, hpos, hex]
+
 /-- a call that does not end in a run-limit or engine error has completed the run: its
     counters are within the budget -/
 theorem successful_call_within_budget (syms : SymbolTable) (blocks : List Block) (az : AuthorizerData) (lim : Limits)
